@@ -1125,3 +1125,19 @@ impl LocalPeerService {
         .await
     }
 }
+
+// verification hook (feature `verif`, add-only): public entry to the private pull of one (entity, day) of a
+// room, so that a harness can play the remote peer of `synchronise_day` over in-memory channels.
+// Only calls the real function.
+#[cfg(feature = "verif")]
+impl LocalPeerService {
+    pub async fn verif_synchronise_day(
+        room_id: Uid,
+        entity: String,
+        date: i64,
+        query_service: &QueryService,
+        discret_services: &DiscretServices,
+    ) -> Result<bool, crate::Error> {
+        Self::synchronise_day(room_id, entity, date, query_service, discret_services).await
+    }
+}
